@@ -75,7 +75,6 @@ import os
 import time
 import warnings
 
-import urwid
 from urwid import AttrMap, AttrWrap, Padding, Text
 from urwid.canvas import CanvasCache
 from urwid.display.common import AttrSpec
